@@ -1,12 +1,13 @@
 import PfdlModel.ExprParse
+import PfdlModel.Json
 /-! The statement level of `PFDLParser.g4` (rules `program` … `attribute_access`) together with what
     `PFDLTreeVisitor` keeps of each rule, over the token stream that `PFDLLexer` + `DenterHelper` deliver
     (INDENT / DEDENT / NL already synthesised, comments and blanks gone).
 
     * an expression arrives as the run of its tokens (`Tk.ex`), grouped into operands as `ExprParse` wants
       them; it is parsed with the table parser of `ExprParse` (the generated parser's `expression` rule);
-    * a struct literal arrives as one token carrying its JSON text (`json_object` is a JSON sub-grammar, the
-      visitor hands the text to `json.loads`);
+    * a struct literal arrives as one token carrying the run of its JSON-mode tokens; it is parsed with the
+      JSON sub-grammar of `PfdlModel.Json` (rules `json_object` … `json_array`);
     * every token carries its line, the parser records the line of the first token of every definition,
       statement and call (`ctx.start.line`, what `print_error` reports).
 
@@ -29,7 +30,7 @@ inductive Tk where
   | int (n : Nat)            -- INTEGER
   | nl | ind | ded
   | ex (t : ExprParse.Tok)   -- a token of an expression
-  | json (text : String)     -- a whole json_object
+  | json (toks : List Json.JTok)   -- the token run of a whole json_object (lexer mode JSON)
 deriving Repr, Inhabited
 
 structure Tok where
@@ -61,8 +62,8 @@ abbrev Seg := String × Option Idx
 inductive Param where
   | var (x : String)
   | path (root : String) (segs : List Seg)
-  | lit (struct : String) (json : String)
-deriving Repr, DecidableEq, Inhabited
+  | lit (struct : String) (fields : List (String × Json.JV))
+deriving Repr, Inhabited
 
 inductive Limit where
   | int (n : Nat)
@@ -74,7 +75,7 @@ structure Call where
   ins : List Param
   outs : List (String × VarTy)
   line : Nat
-deriving Repr, DecidableEq, Inhabited
+deriving Repr, Inhabited
 
 inductive Stmt where
   | svc (c : Call)
@@ -207,12 +208,18 @@ def pParam (f : Nat) : TS → Option (Param × TS)
       | none => none
     | none => none
   | ⟨.up s, _⟩ :: ⟨.ind, _⟩ :: ⟨.json j, _⟩ :: r =>
-    match pNl1 r with
-    | some (⟨.ded, _⟩ :: r') => some (.lit s j, r')
-    | _ => none
+    match Json.parseObj j with
+    | some fs =>
+      match pNl1 r with
+      | some (⟨.ded, _⟩ :: r') => some (.lit s fs, r')
+      | _ => none
+    | none => none
   | ⟨.up s, _⟩ :: r =>
     match dropNl r with
-    | ⟨.json j, _⟩ :: r' => some (.lit s j, dropNl r')
+    | ⟨.json j, _⟩ :: r' =>
+      match Json.parseObj j with
+      | some fs => some (.lit s fs, dropNl r')
+      | none => none
     | _ => none
   | _ => none
 
@@ -470,26 +477,29 @@ inductive LitStyle where
   | sameLine | nextLine | indented
 deriving Repr, DecidableEq, Inhabited
 
-def prParam (sty : String → String → LitStyle) : Param → TS
+/-- the placement chosen for a literal (any function of the literal) -/
+abbrev Style := String → List (String × Json.JV) → LitStyle
+
+def prParam (sty : Style) : Param → TS
   | .var x => [t (.lo x), t .nl]
   | .path x ss => t (.lo x) :: prSegs ss ++ [t .nl]
-  | .lit s j =>
-    match sty s j with
-    | .sameLine => [t (.up s), t (.json j), t .nl]
-    | .nextLine => [t (.up s), t .nl, t (.json j), t .nl]
-    | .indented => [t (.up s), t .ind, t (.json j), t .nl, t .ded]
+  | .lit s fs =>
+    match sty s fs with
+    | .sameLine => [t (.up s), t (.json (Json.prVal (.obj fs))), t .nl]
+    | .nextLine => [t (.up s), t .nl, t (.json (Json.prVal (.obj fs))), t .nl]
+    | .indented => [t (.up s), t .ind, t (.json (Json.prVal (.obj fs))), t .nl, t .ded]
 
-def prParams (sty : String → String → LitStyle) : List Param → TS
+def prParams (sty : Style) : List Param → TS
   | [] => []
   | p :: ps => prParam sty p ++ prParams sty ps
 
-def prCallRest (sty : String → String → LitStyle) (ins : List Param) (outs : List (String × VarTy)) : TS :=
+def prCallRest (sty : Style) (ins : List Param) (outs : List (String × VarTy)) : TS :=
   if ins.isEmpty && outs.isEmpty then [t .nl]
   else t .ind ::
     (if ins.isEmpty then [] else t (.kw .in_) :: t .ind :: prParams sty ins ++ [t .ded]) ++
     (if outs.isEmpty then [] else t (.kw .out) :: t .ind :: prVarDefs outs ++ [t .ded]) ++ [t .ded]
 
-def prCalls (sty : String → String → LitStyle) : List Call → TS
+def prCalls (sty : Style) : List Call → TS
   | [] => []
   | c :: cs => t (.lo c.name) c.line :: prCallRest sty c.ins c.outs ++ prCalls sty cs
 
@@ -500,7 +510,7 @@ def prLimit : Limit → TS
   | .path x ss => t (.lo x) :: prSegs ss
 
 mutual
-def prStmt (sty : String → String → LitStyle) : Stmt → TS
+def prStmt (sty : Style) : Stmt → TS
   | .svc c => t (.up c.name) c.line :: prCallRest sty c.ins c.outs
   | .call c => t (.lo c.name) c.line :: prCallRest sty c.ins c.outs
   | .par cs l => t (.kw .parallel) l :: t .ind :: prCalls sty cs ++ [t .ded]
@@ -514,7 +524,7 @@ def prStmt (sty : String → String → LitStyle) : Stmt → TS
   | .cond e p (some q) l =>
     t (.kw .condition) l :: t .ind :: prExpr e ++ t .nl :: t .ded :: t (.kw .passed) :: t .ind :: prStmts sty p ++
       t .ded :: t (.kw .failed) :: t .ind :: prStmts sty q ++ [t .ded]
-def prStmts (sty : String → String → LitStyle) : List Stmt → TS
+def prStmts (sty : Style) : List Stmt → TS
   | [] => []
   | s :: ss => prStmt sty s ++ prStmts sty ss
 end
@@ -528,11 +538,11 @@ def prTaskIn (ins : List (String × VarTy)) : TS :=
 def prTaskOut (outs : List String) : TS :=
   if outs.isEmpty then [] else t (.kw .out) :: t .ind :: prNames outs ++ [t .ded]
 
-def prTask (sty : String → String → LitStyle) (k : Task) : TS :=
+def prTask (sty : Style) (k : Task) : TS :=
   t (.kw .task) k.line :: t (.lo k.name) :: t .ind ::
     prTaskIn k.ins ++ prStmts sty k.body ++ prTaskOut k.outs ++ [t .ded, t (.kw .end_), t .nl]
 
-def prDefs (sty : String → String → LitStyle) : List Def → TS
+def prDefs (sty : Style) : List Def → TS
   | [] => []
   | .struct s :: ds => prStruct s ++ prDefs sty ds
   | .task k :: ds => prTask sty k ++ prDefs sty ds
